@@ -47,13 +47,32 @@ theorem not_or (v : DV) (os : List DOp) : dvTest v (.not (.or os)) = dvTest v (.
 theorem not_not (v : DV) (o : DOp) : dvTest v (.not (.not o)) = dvTest v o := by
   simp [not_compl]
 
-/-- numeric comparison is by type: an integer value is never matched by a float operator and vice
-versa; a string is never matched by a numeric operator -/
+/-- equality is by type: an integer value is never matched by a float equality and vice versa; a string is never
+matched by a numeric operator -/
 theorem cross_type (n q : Int) (s : String) :
-    dvTest (.int n) (.eqf q) = false ∧ dvTest (.int n) (.gtf q) = false ∧ dvTest (.int n) (.lef q) = false ∧
-    dvTest (.flt q) (.eqi n) = false ∧ dvTest (.flt q) (.gt n) = false ∧ dvTest (.flt q) (.le n) = false ∧
-    dvTest (.str s) (.eqi n) = false ∧ dvTest (.str s) (.gtf q) = false ∧ dvTest .null (.eq s) = false := by
+    dvTest (.int n) (.eqf q) = false ∧ dvTest (.flt q) (.eqi n) = false ∧
+    dvTest (.str s) (.eqi n) = false ∧ dvTest (.str s) (.gtf q) = false ∧ dvTest (.str s) (.gt n) = false ∧
+    dvTest .null (.eq s) = false := by
   simp [dvTest]
+
+/-- **C10 (numeric cross-type comparison).** The ordering operators are "the value is numeric and greater (less) than
+the operand": a float value (`q` quarters) and an integer operand, or an integer value and a float operand, are
+compared by value. -/
+theorem numeric_order (n q : Int) :
+    (dvTest (.flt q) (.gt n) = true ↔ q > 4 * n) ∧ (dvTest (.flt q) (.ge n) = true ↔ q ≥ 4 * n) ∧
+    (dvTest (.flt q) (.lt n) = true ↔ q < 4 * n) ∧ (dvTest (.flt q) (.le n) = true ↔ q ≤ 4 * n) ∧
+    (dvTest (.int n) (.gtf q) = true ↔ 4 * n > q) ∧ (dvTest (.int n) (.gef q) = true ↔ 4 * n ≥ q) ∧
+    (dvTest (.int n) (.ltf q) = true ↔ 4 * n < q) ∧ (dvTest (.int n) (.lef q) = true ↔ 4 * n ≤ q) := by
+  simp [dvTest]
+
+/-- an integer operand and the float operand of the same value give the same answer, on integers and on floats -/
+theorem operand_type_is_immaterial (v : DV) (n : Int) (hv : (∃ m, v = .int m) ∨ (∃ q, v = .flt q)) :
+    dvTest v (.gt n) = dvTest v (.gtf (4 * n)) ∧ dvTest v (.ge n) = dvTest v (.gef (4 * n)) ∧
+    dvTest v (.lt n) = dvTest v (.ltf (4 * n)) ∧ dvTest v (.le n) = dvTest v (.lef (4 * n)) := by
+  rcases hv with ⟨m, rfl⟩ | ⟨q, rfl⟩
+  · simp only [dvTest]
+    refine ⟨?_, ?_, ?_, ?_⟩ <;> (apply decide_eq_decide.mpr; omega)
+  · simp [dvTest]
 
 theorem int_order (n m : Int) :
     (dvTest (.int n) (.gt m) = true ↔ n > m) ∧ (dvTest (.int n) (.ge m) = true ↔ n ≥ m) ∧
@@ -213,7 +232,7 @@ theorem find_data_scan (s : State) (sid : String) (sh : Nat) (m : SetM) (key : O
         simp [hd, ht]
 
 /-! ### Non-vacuity -/
-example : dvTest (.int 3) (.or [.eq "3", .gt 5]) = true ∧ dvTest (.flt 4) (.eqi 1) = false ∧
+example : dvTest (.int 3) (.or [.eq "3", .gt 5]) = true ∧ dvTest (.flt 4) (.eqi 1) = false ∧ dvTest (.flt 14) (.gt 3) = true ∧
     dvTest (.list [.int 1, .str "v0"]) (.has "v0") = true := by decide
 example : (State.empty.insertData ⟨"s", some "k", some "s:v", none⟩).2.insertData ⟨"s", some "k", some "s:v", none⟩
     = (some (0, 0), (State.empty.insertData ⟨"s", some "k", some "s:v", none⟩).2) := by decide
